@@ -214,10 +214,10 @@ class FixedArray(Array, Generic[ValuesType]):
         from barril.units import Scalar
 
         if isinstance(value, tuple):
-            scalar = Scalar(self.GetValues()[index], self.GetUnit()).CreateCopy(*value)
+            scalar = Scalar(self.GetQuantity(), self.GetValues()[index]).CreateCopy(*value)
 
         elif not isinstance(value, Scalar):
-            scalar = Scalar(value, self.GetUnit())
+            scalar = Scalar(self.GetQuantity(), value)
 
         else:
             scalar = value
